@@ -58,3 +58,15 @@ check('C07', 'symbolic execution of the MIR of the four conversions (SemVer/PEP4
 for e in ENGINES:
     if e['name'] in ('msym', 'native-driver'):
         e['serves_properties'] = sorted(set(e['serves_properties']) | {'C07'})
+
+check('C06', 'symbolic execution of the MIR of SemVer/PEP440::from(Zerv), components.rs, sanitize.rs and Display on a menu of schemas with symbolic variables; z3 compares the rendered string with a reference renderer transcribed from the statement; smart-preset tier choice vs the decision table',
+      'For a menu of schemas (every component kind in core / extra-core / build positions, literals before integers, more than three integers, timestamps, the 16 fixed preset schemas) the real renderers run on Zerv values whose mentioned variables have symbolic presence and symbolic contents (numbers, 1-2 char texts over ASCII + non-ASCII representatives, timestamps); per path z3 is asked for variable values where the rendered SemVer / PEP 440 string differs from the reference renderer. The six smart presets are executed with all variables symbolic (numbers any u64) and their tier/context choice is compared with the documented decision table.',
+      'trusted: python std/regex/chrono-format models, the reference renderer, z3. Bounded: numbers <= 99, texts <= 2 (thorough 4) chars, schema menu; custom JSON variables outside.',
+      'DESIGN.md §7 C06')
+check('C01', 'same symbolic executions as C06 continued through Display and the real parsers; z3 / grammar matcher decide well-formedness of every output string per path',
+      'On every path of the C06 exploration (schemas x symbolic variables x both formats, including 11- and 21-digit all-numeric texts and non-ASCII text) the emitted string must be ASCII, match the SemVer 2.0.0 grammar resp. the PEP 440 normal form (ASCII grammar patterns run by the matcher on the symbolic output), be accepted by zerv\'s own from_str (executed symbolically on the output) and, for the preset schemas, re-render to itself through the same format.',
+      'trusted: as C06; the grammar patterns are mine (SemVer BNF, PEP 440 normal form). The CLI wrapper, --output-prefix and templates are outside.',
+      'DESIGN.md §7 C01')
+for e in ENGINES:
+    if e['name'] in ('msym', 'native-driver'):
+        e['serves_properties'] = sorted(set(e['serves_properties']) | {'C06', 'C01'})
